@@ -1,0 +1,119 @@
+// Copyright (c) 2019 The BFE Authors.
+//
+// Licensed under the Apache License, Version 2.0 (the "License");
+// you may not use this file except in compliance with the License.
+// You may obtain a copy of the License at
+//
+//     http://www.apache.org/licenses/LICENSE-2.0
+//
+// Unless required by applicable law or agreed to in writing, software
+// distributed under the License is distributed on an "AS IS" BASIS,
+// WITHOUT WARRANTIES OR CONDITIONS OF ANY KIND, either express or implied.
+// See the License for the specific language governing permissions and
+// limitations under the License.
+
+//go:build verif
+
+// Trace hooks for model-based verification (build tag `verif`).  Every hook is called
+// with p.mu held, after the state change of the critical section, so that the per-pipe
+// sequence number is a linearization order of the operations on that pipe.
+
+package pipe
+
+// Operations reported to a tracer.
+const (
+	VerifOpRead    = "read"    // Read is about to return (n, err are its results)
+	VerifOpBlock   = "block"   // Read found nothing to return and is about to Wait
+	VerifOpWrite   = "write"   // Write is about to return
+	VerifOpClose   = "close"   // CloseWithError / CloseWithErrorAndCode
+	VerifOpBreak   = "break"   // BreakWithError
+	VerifOpRelease = "release" // Release
+)
+
+// Classes of the errors created inside this package.
+const (
+	VerifErrNone        = 0
+	VerifErrClosedWrite = 1 // errClosedPipeWrite
+	VerifErrWriteFull   = 2 // errWriteFull
+	VerifErrOther       = 3 // an error value supplied by the caller (see Err)
+)
+
+// VerifEvent is one linearized operation on a Pipe.
+type VerifEvent struct {
+	Seq      uint64 // per-pipe sequence number, starts at 1, incremented under p.mu
+	Op       string
+	Asked    int    // len(d) of Read/Write
+	N        int    // result n of Read/Write
+	Err      error  // result err of Read/Write; the argument of Close/Break
+	ErrClass int    // class of Err
+	Data     []byte // d[:n]; aliases the caller's slice, valid during the call only
+	Buffered int    // p.b.Len() after the operation, -1 when the buffer is released
+	Closed   bool   // p.err != nil
+	Broken   bool   // p.breakErr != nil
+	Released bool   // p.b == nil
+}
+
+type verifTraceState struct {
+	seq uint64
+	fn  func(ev *VerifEvent)
+}
+
+// VerifAttach installs fn as the tracer of p.  It must be called before p is shared
+// between goroutines.  fn runs with p.mu held and must not call into p.
+func (p *Pipe) VerifAttach(fn func(ev *VerifEvent)) {
+	p.mu.Lock()
+	p.vt.fn = fn
+	p.vt.seq = 0
+	p.mu.Unlock()
+}
+
+func verifErrClass(err error) int {
+	switch err {
+	case nil:
+		return VerifErrNone
+	case errClosedPipeWrite:
+		return VerifErrClosedWrite
+	case errWriteFull:
+		return VerifErrWriteFull
+	}
+	return VerifErrOther
+}
+
+// requires p.mu be held.
+func (p *Pipe) verifEmit(op string, asked, n int, err error, data []byte) {
+	if p.vt.fn == nil {
+		return
+	}
+	p.vt.seq++
+	ev := VerifEvent{Seq: p.vt.seq, Op: op, Asked: asked, N: n, Err: err, ErrClass: verifErrClass(err),
+		Data: data, Buffered: -1, Closed: p.err != nil, Broken: p.breakErr != nil, Released: p.b == nil}
+	if p.b != nil {
+		ev.Buffered = p.b.Len()
+	}
+	p.vt.fn(&ev)
+}
+
+// verifTraceIO is deferred by Read and Write after the deferred Unlock, so it runs
+// first, with the lock held, and sees the final values of the named results.
+func (p *Pipe) verifTraceIO(op string, d []byte, n *int, err *error) {
+	if p.vt.fn == nil {
+		return
+	}
+	var data []byte
+	if *n >= 0 && *n <= len(d) {
+		data = d[:*n]
+	}
+	p.verifEmit(op, len(d), *n, *err, data)
+}
+
+func (p *Pipe) verifTraceBlock(d []byte) { p.verifEmit(VerifOpBlock, len(d), 0, nil, nil) }
+
+func (p *Pipe) verifTraceClose(dst *error, err error) {
+	op := VerifOpClose
+	if dst == &p.breakErr {
+		op = VerifOpBreak
+	}
+	p.verifEmit(op, 0, 0, err, nil)
+}
+
+func (p *Pipe) verifTraceRelease() { p.verifEmit(VerifOpRelease, 0, 0, nil, nil) }
